@@ -364,6 +364,7 @@ fn clean_item(it: &mut syn::Item, derive_keep: &[String], subst: &BTreeMap<Strin
 // ---- function transformation
 
 struct Rules {
+    enumerate_fn: Option<String>,
     impl_arg: bool,
     split_loop: bool,
     mut_self: bool,
@@ -527,6 +528,26 @@ impl<'a> VisitMut for RuleVisitor<'a> {
             if let Some(e) = repl {
                 *l.expr = e;
                 self.applied.bump("E14-split-loop-over-collected-parts");
+            }
+        }
+        if let Some(fname) = &self.rules.enumerate_fn {
+            // E16=<f>: `for P in X.iter().enumerate() { B }` ==> `for P in <f>(X) { B }` where <f> is a trusted function of the
+            // template returning the vector of (index, item) pairs of a dependency-typed collection (here: IndexMap keys)
+            let mut repl: Option<Expr> = None;
+            if let Expr::MethodCall(outer) = &*l.expr {
+                if outer.method == "enumerate" && outer.args.is_empty() {
+                    if let Expr::MethodCall(inner) = &*outer.receiver {
+                        if inner.method == "iter" && inner.args.is_empty() {
+                            let recv = &inner.receiver;
+                            let f = format_ident!("{}", fname);
+                            repl = Some(parse_quote!(#f(#recv)));
+                        }
+                    }
+                }
+            }
+            if let Some(e) = repl {
+                *l.expr = e;
+                self.applied.bump("E16-iter-enumerate-over-collected-pairs");
             }
         }
         if self.rules.tail_continue {
@@ -947,6 +968,7 @@ fn transform_fn(
         .map(|a| a.iter().filter_map(|x| x.as_str().map(String::from)).collect())
         .unwrap_or_default();
     let rules = Rules {
+        enumerate_fn: rule_list.iter().find_map(|r| r.strip_prefix("E16=").map(String::from)),
         impl_arg: rule_list.iter().any(|r| r == "E15"),
         split_loop: rule_list.iter().any(|r| r == "E14"),
         mut_self: rule_list.iter().any(|r| r == "E13"),
